@@ -322,8 +322,9 @@ def known_crash_between_renames(body):
             and 'no data file' in (body.get('message') or ''))
 
 
-def h_pack_fault(f: int, prior: bool = False) -> None:
-    """The f-th file-system operation of the pack fails: database unchanged and usable, .pack removed."""
+def h_pack_fault(f: int, prior: bool = False, sticky: bool = False) -> None:
+    """The f-th file-system operation of the pack fails (sticky: and every later write of the pack too - the disk
+    stays full until the pack has given up): database unchanged and usable, .pack removed."""
     assume(f >= 0)
     with untraced():
         env, _, g, s, pre, stop = _setup(False)
@@ -336,6 +337,7 @@ def h_pack_fault(f: int, prior: bool = False) -> None:
         before = bytes(env.fs.content(DATA))
         fs = env.fs
     fs.fail_at = fs.nops + f
+    fs.fail_sticky = sticky
     with untraced():
         failed = None
         try:
@@ -344,11 +346,16 @@ def h_pack_fault(f: int, prior: bool = False) -> None:
             failed = ex
         fired = bool(fs.fault_log)
         fs.fail_at = None
+        fs.fail_sticky = False
         assume(fired)
         note('op', fs.fault_log[-1][1] + ':' + (fs.fault_log[-1][2] or '').split('/')[-1])
         check(not s._pack_is_in_progress, 'pack flag left set after a failed pack')
         check(not s._commit_lock.locked(), 'commit lock left held after a failed pack')
         if failed is not None:
+            if all(e[1] == 'write' for e in fs.fault_log):
+                # a pack that ran out of space gives the space back (a failing rename / remove at the swap is another
+                # matter: the leftover is harmless there and the next pack replaces it)
+                check(not env.fs.exists(DATA + '.pack'), '.pack file left behind by a pack that failed writing', fs.fault_log[-1][1:])
             c07.differential(pre, s, stop, True, 'after failed pack')
         # the database is usable: a commit, a new pack, a reopen
         post = GR.model_from_storage(s)
@@ -403,7 +410,7 @@ HARNESSES = [
                     'flag reset, .pack removed); a later pack succeeds',
             symbolic='f over all file-system operations of the pack', bounds='one fault', oracle='C07 differential oracle + follow-up commit/pack/reopen',
             code=['FileStoragePacker.pack (OSError paths, close_files_remove)', 'FileStorage.pack (finally)'],
-            quick=dict(timeout=150, shards=shards(prior=[False, True])), thorough=dict(timeout=600, shards=shards(prior=[False, True]))),
+            quick=dict(timeout=150, shards=shards(prior=[False, True], sticky=[False]) + shards(prior=[False], sticky=[True])), thorough=dict(timeout=600, shards=shards(prior=[False, True], sticky=[False, True]))),
 ]
 
 MANIFEST = dict(
